@@ -5,3 +5,5 @@ open Rpylib.Params
 #print axioms default_interval_admissible
 #print axioms derived_attrs_match
 #print axioms derived_attrs_cover
+#print axioms ctor_args_match
+#print axioms acceptance_match
